@@ -272,8 +272,9 @@ package freelist
 
 //@ func (*hashMap).addSpan
 //@   props C09
-//@   requires sepfm(f) && (forall z uint64 :: has(f.freemaps, z) ==> allocated(f.freemaps[z]))
+//@   requires sepfm(f) && (forall z uint64 :: has(f.freemaps, z) ==> live(f.freemaps[z]))
 //@   ensures [sep] sepfm(f)
+//@   ensures [live] forall z uint64 :: has(f.freemaps, z) ==> live(f.freemaps[z])
 //@   ensures [fm] forall z uint64, s common.Pgid :: infm(f, z, s) == (old(infm(f, z, s)) || (z == size && s == start))
 //@   ensures [cache] f.cache == old(f.cache) && (forall p common.Pgid :: has(f.cache, p) == old(has(f.cache, p)))
 //@   requires f.forwardMap != nil && f.backwardMap != nil && f.freemaps != nil && f.forwardMap != f.backwardMap && size >= 1 && start + size <= 18446744073709551615
@@ -289,7 +290,7 @@ package freelist
 
 //@ func (*hashMap).delSpan
 //@   props C09
-//@   requires sepfm(f) && has(f.freemaps, size) && (forall z uint64 :: has(f.freemaps, z) ==> allocated(f.freemaps[z]))
+//@   requires sepfm(f) && has(f.freemaps, size) && (forall z uint64 :: has(f.freemaps, z) ==> live(f.freemaps[z]))
 //@   ensures [sep] sepfm(f)
 //@   ensures [fm] forall z uint64, s common.Pgid :: infm(f, z, s) == (old(infm(f, z, s)) && !(z == size && s == start))
 //@   ensures [fmvals] forall z uint64 :: has(f.freemaps, z) ==> old(has(f.freemaps, z)) && f.freemaps[z] == old(f.freemaps[z])
@@ -309,7 +310,7 @@ package freelist
 
 //@ func (*hashMap).Allocate
 //@   props C09 C06
-//@   requires wfHM(f) && sepfm(f) && f.forwardMap != f.backwardMap && (forall z uint64 :: has(f.freemaps, z) ==> allocated(f.freemaps[z])) && f.cache != nil && f.allocs != nil && n >= 0
+//@   requires wfHM(f) && sepfm(f) && f.forwardMap != f.backwardMap && (forall z uint64 :: has(f.freemaps, z) ==> live(f.freemaps[z])) && f.cache != nil && f.allocs != nil && n >= 0
 //@   requires forall z uint64, s common.Pgid :: infm(f, z, s) <==> hmspan(f, s, z)
 //@   requires forall s common.Pgid :: has(f.forwardMap, s) ==> s >= 2 && s + f.forwardMap[s] <= 18446744073709551615
 //@   ensures [range] result == 0 || result >= 2
@@ -342,7 +343,7 @@ package freelist
 // to the range is untouched, the counter grows by the length of the range.
 //@ func (*hashMap).mergeWithExistingSpan
 //@   props C09
-//@   requires hmrep(f) && (forall z uint64 :: has(f.freemaps, z) ==> allocated(f.freemaps[z])) && start >= 2 && start <= end && end < 18446744073709551615
+//@   requires hmrep(f) && (forall z uint64 :: has(f.freemaps, z) ==> live(f.freemaps[z])) && start >= 2 && start <= end && end < 18446744073709551615
 //@   requires forall s common.Pgid {f.forwardMap[s]} :: has(f.forwardMap, s) ==> s + f.forwardMap[s] <= start || s > end
 //@   ensures [rep] hmrep(f)
 //@   ensures [covers] exists ns common.Pgid :: has(f.forwardMap, ns) && ns <= start && end < ns + f.forwardMap[ns]
@@ -367,12 +368,33 @@ package freelist
 
 //@ func (*array).Init
 //@   props C09 C13
+//@   requires f.pending != nil && (forall tid common.Txid :: has(f.pending, tid) ==> f.pending[tid] != nil)
 //@   ensures [ids] len(f.ids) == len(ids) && arrayof(f.ids) == arrayof(ids) && offof(f.ids) == offof(ids)
 //@   ensures [reindexed] callstotal("(*shared).reindex") == old(callstotal("(*shared).reindex")) + 1
 
+// reindex rebuilds the membership cache from scratch: afterwards it holds every free id and every id pending under any
+// transaction - and nothing else (so Freed(id) is true exactly for the pages that are free or pending: C07, C19).
 //@ func (*shared).reindex
-//@   opaque
-//@   modifies t.cache, allmaps("common.Pgid", "struct{}")
+//@   props C09 C07 C13
+//@   requires t.pending != nil && (forall tid common.Txid :: has(t.pending, tid) ==> t.pending[tid] != nil)
+//@   ensures [fresh] fresh(t.cache) && t.cache != nil
+//@   exit [free] forall k int :: 0 <= k && k < len(free) ==> has(t.cache, free[k])
+//@   exit [pend] forall tid common.Txid, j int :: has(t.pending, tid) && 0 <= j && j < len(t.pending[tid].ids) ==> has(t.cache, t.pending[tid].ids[j])
+//@   exit [only] forall p common.Pgid :: has(t.cache, p) ==> inids(free, p) || (exists wt common.Txid, wj int :: has(t.pending, wt) && 0 <= wj && wj < len(t.pending[wt].ids) && t.pending[wt].ids[wj] == p)
+//@   modifies t.cache
+//@   noframe     -- (only the cache field changes: the map it points to afterwards is a new one) freePageIds of the hashmap back end builds its result in scratch slices and runs the Verify closure of FreeCount; that none of this is visible to the caller is assumed
+//@   loop 0 invariant [free] forall k int :: 0 <= k && k <= rangeindex ==> has(t.cache, free[k])
+//@   loop 0 invariant [only] forall p common.Pgid :: has(t.cache, p) ==> inids(free, p)
+//@   loop 0 invariant [fresh] fresh(t.cache) && t.cache != nil && sameheap("txPending.ids") && sameelems("common.Pgid") && sameheap("shared.pending") && loopsame(free)
+//@   loop 1 invariant [free] forall k int :: 0 <= k && k < len(free) ==> has(t.cache, free[k])
+//@   loop 1 invariant [pend] forall tid common.Txid, j int :: visited(tid) && has(t.pending, tid) && 0 <= j && j < len(t.pending[tid].ids) ==> has(t.cache, t.pending[tid].ids[j])
+//@   loop 1 invariant [only] forall p common.Pgid :: has(t.cache, p) ==> inids(free, p) || (exists wt common.Txid, wj int :: has(t.pending, wt) && 0 <= wj && wj < len(t.pending[wt].ids) && t.pending[wt].ids[wj] == p)
+//@   loop 1 invariant [fresh] fresh(t.cache) && t.cache != nil && sameheap("txPending.ids") && sameelems("common.Pgid") && sameheap("shared.pending") && (forall tid common.Txid :: has(t.pending, tid) == old(has(t.pending, tid)) && t.pending[tid] == old(t.pending[tid]))
+//@   loop 2 invariant [free] forall k int :: 0 <= k && k < len(free) ==> has(t.cache, free[k])
+//@   loop 2 invariant [pend] forall tid common.Txid, j int :: visited(tid) && has(t.pending, tid) && t.pending[tid] != txp && 0 <= j && j < len(t.pending[tid].ids) ==> has(t.cache, t.pending[tid].ids[j])
+//@   loop 2 invariant [cur] forall j int :: 0 <= j && j <= rangeindex ==> has(t.cache, txp.ids[j])
+//@   loop 2 invariant [only] forall p common.Pgid :: has(t.cache, p) ==> inids(free, p) || (exists wt common.Txid, wj int :: has(t.pending, wt) && 0 <= wj && wj < len(t.pending[wt].ids) && t.pending[wt].ids[wj] == p)
+//@   loop 2 invariant [fresh] fresh(t.cache) && t.cache != nil && sameheap("txPending.ids") && sameelems("common.Pgid") && sameheap("shared.pending") && (forall tid common.Txid :: has(t.pending, tid) == old(has(t.pending, tid)) && t.pending[tid] == old(t.pending[tid])) && txp != nil
 
 // NoSyncReload(pgIds) (used by rollback and by Reload): the list handed to Init contains no id that is pending under any
 // transaction - a page freed by a still-open or rolled-back-around transaction never re-enters the free set through a
@@ -405,6 +427,30 @@ package freelist
 //@   ensures [read] callstotal("(*shared).Read") == old(callstotal("(*shared).Read")) + 1 && lastarg("(*shared).Read", 1) == p
 //@   ensures [filtered] callstotal("(*shared).NoSyncReload") == old(callstotal("(*shared).NoSyncReload")) + 1 && lastargarr("(*shared).NoSyncReload", 1) == lastretarr("freelist.Interface.freePageIds", 0) && lastargoff("(*shared).NoSyncReload", 1) == lastretoff("freelist.Interface.freePageIds", 0) && lastarglen("(*shared).NoSyncReload", 1) == lastretlen("freelist.Interface.freePageIds", 0)
 //@   skip pre/NoSyncReload because Read re-initialises the free list through the interface (Init), whose contract does not carry the shape of the pending map; the pending map is not touched by Read/Init (only the cache is rebuilt)
+
+//@ func (*hashMap).FreeCount
+//@   props C09 C07
+//@   callback ensures true
+//@   ensures [count] result == wrapint(f.freePagesCount)
+//@   ensures [same] f.freePagesCount == old(f.freePagesCount)
+
+// Init (hashmap): from a strictly ascending list of page ids >= 2 the three indexes are rebuilt from scratch, one span
+// per maximal run of consecutive ids; the representation invariant holds afterwards and the counter equals the number
+// of ids; the membership cache is rebuilt (reindex).
+//@ func (*hashMap).Init
+//@   props C09 C13
+//@   requires forall a int, b int {pgids[a], pgids[b]} :: 0 <= a && a < b && b < len(pgids) ==> pgids[a] < pgids[b]
+//@   requires forall a int {pgids[a]} :: 0 <= a && a < len(pgids) ==> pgids[a] >= 2 && pgids[a] < 18446744073709551615
+//@   requires f.pending != nil && (forall tid common.Txid :: has(f.pending, tid) ==> f.pending[tid] != nil)
+//@   skip =nopanic/panic because sort.SliceIsSorted is not modelled; the list is strictly ascending by the precondition, so the "pgids not sorted" panic is excluded
+//@   ensures [rep] hmrep(f) && (forall z uint64 :: has(f.freemaps, z) ==> live(f.freemaps[z]))
+//@   ensures [count] f.freePagesCount == len(pgids)
+//@   ensures [reindexed] len(pgids) > 0 ==> callstotal("(*shared).reindex") == old(callstotal("(*shared).reindex")) + 1     -- (an empty list returns before reindex: the cache is left as it was)
+//@   loop 0 invariant [i] 1 <= i && i <= len(pgids) && size >= 1 && size <= i && start == pgids[i - size] && pgids[i-1] == start + size - 1 && loopsame(pgids)
+//@   loop 0 invariant [rep] hmrep(f) && (forall z uint64 :: has(f.freemaps, z) ==> live(f.freemaps[z]))
+//@   loop 0 invariant [below] forall s common.Pgid {f.forwardMap[s]} :: has(f.forwardMap, s) ==> s + f.forwardMap[s] < start
+//@   loop 0 invariant [count] f.freePagesCount == i - size
+//@   loop 0 invariant [fresh] fresh(f.forwardMap) && fresh(f.backwardMap) && fresh(f.freemaps) && f.cache == old(f.cache)
 
 // ---------------------------------------------------------------- interface contracts (used at call sites in package bbolt)
 // The ghost gfree[obj] is the abstract free set of a freelist object.
